@@ -214,13 +214,16 @@ def run(ctx):
                 ok = len(push) == 1 and len(pop) == 1 and all(ig.dominated_by(p, push) for p in pay) and \
                     ig.postdominated_by(push[0], pop) and \
                     any(ig.ev_of(o) is push[0] for o in ig.origins(ig.rarg(pop[0], 0)))
-                # the limit is the decoded length, 0 when the length could not be read
-                a = strip_cast(ig.rarg(push[0], 0)) if push else None
-                ok = ok and isinstance(a, dict) and a.get("k") == "cond" and const_val(a.get("f")) == 0 and \
-                    any(ig.ev_of(o) is not None and ig.ev_of(o).ev.get("name") == "ReadVarint32"
-                        for o in ig.origins(ig.resolve(strip_cast(a.get("c")), push[0].frame)))
+                # the limit is the length decoded by a ReadVarint32 into a local (whether that read is checked is R3a's business)
+                if push:
+                    a = ig.rarg(push[0], 0)
+                    lens = [n for n in ig.ev_nodes() if n.id in live and n.ev["e"] == "call" and n.ev.get("name") == "ReadVarint32"]
+                    ok = ok and bool(lens) and any(
+                        isinstance(strip_cast(x), dict) and strip_cast(x).get("k") == "u" and strip_cast(x).get("op") == "&" and
+                        L.deep_find(ig, a, lambda d, x=x: d.get("k") == "l" and d.get("id") == strip_cast(strip_cast(x).get("x")).get("id")) is not None
+                        for ln in lens for x in ln.ev.get("args", [])) and all(ig.dominated_by(push[0], [ln]) for ln in lens)
                 ctx.ob("C11.R4", inst, ok, fn.loc,
-                       "a length-delimited payload must be parsed between PushLimit(decoded length, 0 on a failed read) and "
+                       "a length-delimited payload must be parsed between PushLimit(decoded length) and "
                        "PopLimit(saved) on every path (an unbalanced limit corrupts the framing of everything that follows)")
             else:
                 ctx.ob("C11.R4", inst, not push and not pop and bool(pay), fn.loc, "a fixed-width payload must not be length-framed")
@@ -294,6 +297,28 @@ def run(ctx):
                "a field's predicted size must be payload [+ varint_size(payload) iff length-delimited] [+ tag size for tagged "
                "fields] and 0 for an empty tagged field, mirroring what serialize_field/serialize_packed_field write: %s" % why)
     ctx.floor("C11.R1c", n1c, 20, "SerializationHelper size helper instances")
+
+    # ---------------------------------------------------------------- R1d the sizing pass refreshes the cache on every path (F9)
+    n1d = 0
+    for fn in hfns:
+        if fn.name != "calculate_serialized_size_field":
+            continue
+        n1d += 1
+        ig = IG(fn, inline=nin)
+        live = ig.live_nodes()
+        wr = []
+        for n in ig.ev_nodes(lambda n: n.id in live):
+            if n.ev["e"] == "asg" and isinstance(strip_cast(n.ev.get("lhs")), dict) and strip_cast(n.ev["lhs"]).get("k") == "p" and \
+                    strip_cast(n.ev["lhs"]).get("i") == 2:
+                wr.append(n)
+            if n.ev["e"] == "call" and n.ev.get("name") == "operator=" and isinstance(strip_cast(n.ev.get("this")), dict) and \
+                    strip_cast(n.ev["this"]).get("k") == "p" and strip_cast(n.ev["this"]).get("i") == 2:
+                wr.append(n)
+        ctx.ob("C11.R1d", L.short(fn)[:120], bool(wr) and ig.exit.id not in ig.reach([ig.entry], removed=wr), fn.loc,
+               "the sizing pass must store the member's size into its cache slot on every path (also when it is 0): "
+               "serialize_field trusts that slot, a stale value from an earlier pass makes it write a length prefix for a payload "
+               "that is no longer there", site="calculate_serialized_size_field@cache-refresh")
+    ctx.floor("C11.R1d", n1d, 10, "calculate_serialized_size_field instances")
 
     # ---------------------------------------------------------------- R6 macro-generated aggregates
     def vsize(v):
@@ -480,7 +505,7 @@ def run(ctx):
     # ---------------------------------------------------------------- R3 error discipline of readers
     n3 = 0
     readers = fb.find(pred=lambda f: f.has_cfg() and not f.lambda_ and
-                      (f.name in ("deserialize", "consume_unknown_field") and
+                      (f.name in ("deserialize", "consume_unknown_field", "deserialize_field", "deserialize_packed_field") and
                        (TRAIT.match(f.record or "") or f.record == "babylon::SerializationHelper" or "bsa_driver" in (f.record or "")
                         or "ReusableVector" in (f.record or ""))))
     for fn in readers:
@@ -507,7 +532,8 @@ def run(ctx):
                         ok = False
                 how = "tested"
             else:
-                # returned directly, or feeding the `cond ? len : 0` limit idiom, or Skip over bytes just peeked
+                # returned directly, or Skip over bytes just peeked (a failed read feeding `ok ? len : 0` into PushLimit is NOT a
+                # check: the element then parses an empty window 'successfully' without consuming input - finding F10)
                 used_in_ret = any(L.deep_find(ig, ig.resolve(r.ev.get("v"), r.frame), lambda d: d.get("k") == "e" and ig.ev_of(d) is rd) is not None
                                   for r in rets if "v" in r.ev)
                 in_cond_expr = any(isinstance(strip_cast(a), dict) and strip_cast(a).get("k") == "cond" and ig.ev_of(strip_cast(strip_cast(a).get("c"))) is rd
@@ -526,7 +552,7 @@ def run(ctx):
                     src = n.ev.get("init") if n.ev["e"] == "decl" else n.ev.get("rhs")
                     if isinstance(strip_cast(src), dict) and ig.ev_of(ig.resolve(strip_cast(src), n.frame)) is rd:
                         flagged = any(L.deep_find(ig, ig.resolve(r.ev.get("v"), r.frame), lambda d: d.get("k") == "l") is not None for r in rets if "v" in r.ev)
-                ok = used_in_ret or in_cond_expr or peeked or flagged
+                ok = used_in_ret or peeked or flagged
                 how = "idiom"
             ctx.ob("C11.R3a", "%s@%s %s" % (inst, rd.line, rd.ev.get("name")), ok, rd.where,
                    "the result of this read does not decide a path that returns false on failure (%s): a truncated or "
@@ -561,6 +587,30 @@ def run(ctx):
                    "unknown fields must be skipped by wire type (tag & 7): varint -> ReadVarint64, fixed32 -> Skip(4), fixed64 -> "
                    "Skip(8), length-delimited -> ReadVarint64 + Skip(length); every other wire type rejected; found %s" %
                    dict((c, v[0]) for c, v in cases.items()))
+
+    # ---------------------------------------------------------------- R7b raw payloads are read chunk by chunk
+    n7b = 0
+    for fn in fb.find(pred=lambda f: f.has_cfg() and not f.lambda_ and f.name == "deserialize"):
+        ig = IG(fn, inline=nin)
+        live = ig.live_nodes()
+        gd = [n for n in ig.ev_nodes() if n.id in live and n.ev["e"] == "call" and n.ev.get("name") == "GetDirectBufferPointer"]
+        for g in gd:
+            a0 = strip_cast(ig.rarg(g, 0))
+            if not (isinstance(a0, dict) and a0.get("k") == "u" and a0.get("op") == "&"):
+                continue
+            dvar = strip_cast(a0.get("x"))
+            users = [n for n in ig.ev_nodes() if n.id in live and n is not g and n.ev["e"] == "call" and
+                     n.ev.get("name") in ("append", "assign", "insert", "memcpy", "push_back", "write") and
+                     any(sd.get("k") == "l" and sd.get("id") == dvar.get("id") for a in n.ev.get("args", []) for sd in walk(a))]
+            if not users:
+                continue
+            n7b += 1
+            ctx.ob("C11.R7b", L.short(fn)[:110], all(g.id in ig.reach([u], include_starts=False) for u in users), g.where,
+                   "the bytes handed out by GetDirectBufferPointer are only the current buffer of the stream: a raw payload must be "
+                   "collected in a loop until the (limited) input is exhausted, otherwise a value that crosses a buffer boundary of a "
+                   "stream-backed input is truncated and the rest of it is mis-parsed as the following fields",
+                   site="%s@chunk-loop" % L.short(fn)[:110])
+    ctx.floor("C11.R7b", n7b, 2, "raw payload readers")
 
     # ---------------------------------------------------------------- R5 / R7 BytesUntilLimit discipline
     n7 = 0
